@@ -444,11 +444,13 @@ def run_scale(n, r):
          C.Struct("h" / C.Byte, "lz" / C.Struct("a" / C.Bytes(n), "b" / C.Byte, "c" / C.Bytes(n)), "t" / C.Byte), "struct"),
         ("Lazy(Bytes(n))", C.Struct("h" / C.Byte, "lz" / C.Lazy(C.Bytes(n)), "t" / C.Byte), C.Struct("h" / C.Byte, "lz" / C.Bytes(n), "t" / C.Byte), "lazy"),
     ]
-    for name, ol, oe, kind in shapes:
+    for name, ol, oe, kind, base in [x + (0,) for x in shapes] + [(x[0] + "@2**32", x[1], x[2], x[3], 2 ** 32 + 7) for x in shapes] + [(x[0] + "@2**63", x[1], x[2], x[3], 2 ** 63 + 1) for x in shapes[:2]]:
         case = {"kind": "scale", "shape": name, "size": n}
+        # base != 0: the same bytes seen through a window stream that reports absolute positions behind 2**32 / 2**63
+        mkstream = (lambda: io.BytesIO(data)) if base == 0 else (lambda: C.BytesIOWithOffsets(data, None, base))
         try:
-            se = io.BytesIO(data); ev = oe.parse_stream(se); eend = se.tell()
-            sl = io.BytesIO(data); lv = ol.parse_stream(sl); lend = sl.tell()
+            se = mkstream(); ev = oe.parse_stream(se); eend = se.tell()
+            sl = mkstream(); lv = ol.parse_stream(sl); lend = sl.tell()
         except Exception as e:
             r.violation("C16/scale/parse-raised/" + name.split("(")[0], case, "%s with n=%d: %r" % (name, n, e))
             continue
